@@ -191,7 +191,7 @@ func init() {
 	})
 	register(&propDef{
 		ID:          "C10",
-		Explanation: "Decides: (SEQ) no *sequence escapes (see C01); (FIN) every float result of every function bound in the base environment (and their callees) and every float boxed into a value under Eval is finite or guarded by two-sided IsInf/IsNaN tests; (MARSHAL) every type implementing jtypes.Callable marshals as the constant \"\" through callableMarshaler, every built-in's first result type is JSON-closed, jsonata.ErrUndefined is referenced only by Expr.Eval and returned exactly on the !IsValid edge, and EvalBytes is json.Unmarshal(error checked) -> Eval(on the decoded value, error checked) -> json.Marshal(of Eval's result). NOT decided: that every nested value of every result is JSON-representable.",
+		Explanation: "Decides: (SEQ) no *sequence escapes (see C01); (FIN) every float result of every function bound in the base environment (and their callees) and every float boxed into a value under Eval is finite or guarded by two-sided IsInf/IsNaN tests; (MARSHAL) every type implementing jtypes.Callable marshals as the constant \"\" through callableMarshaler, every built-in's first result type is JSON-closed, jsonata.ErrUndefined is referenced only by Expr.Eval and returned exactly on the !IsValid edge, and EvalBytes is json.Unmarshal(error checked) -> Eval(on the decoded value, error checked) -> json.Marshal(of Eval's result). (BOXVAL) no reflect.Value handle is boxed into an interface{} that is returned or stored as data (a missing .Interface() would put an internal type, which marshals as {}, into the result). NOT decided: that every nested value of every result is JSON-representable.",
 		Rule:        commonRule,
 		Fixtures:    []string{"seq", "fin", "marshal"},
 		Run: func(c *Ctx, r *Result) {
@@ -202,6 +202,8 @@ func init() {
 			m := runFINBoxing(c, e, r, "FIN", srcFuncsIn(c.REval))
 			r.RequireMin("FIN float boxing sites under Eval", m, 3)
 			runMARSHAL(c, r, "MARSHAL")
+			bv := runBOXVAL(c, r, "BOXVAL", libFuncsIn(c, c.REval), c.REval)
+			r.Count("BOXVAL reflect.Value boxed into interface{} under Eval", bv)
 			r.Assume("numbers entering evaluation (decoded JSON, number literals) are finite")
 		},
 	})
@@ -217,6 +219,69 @@ func init() {
 			r.RequireMin("LIT literal-flow obligations", k, 6)
 			runW(c, c.G, r, "W-compile", compileRootCfg(c))
 			runPureNamed(c, r, []string{"jsonata.evalNumber", "jsonata.evalString", "jsonata.evalBoolean", "jsonata.evalNull", "jsonata.evalArray", "jsonata.evalObject", "jsonata.groupItemsByKey"}, nil, 5)
+		},
+	})
+	register(&propDef{
+		ID:          "C14",
+		Explanation: "Thin: decides structural necessary conditions of the object model. (GROUP) in groupItemsByKey every store into the key map uses a key that is a string by construction (a string literal's Value, or jtypes.AsString with its ok result tested) and follows a comma-ok lookup of the same key, lying on its absent edge or after the test that the entry found came from the same key/value pair — so a second pair producing an existing key reaches the duplicate-key error instead of overwriting or merging, and a non-string key the illegal-key error; (COVER) the object functions' loops over a struct's fields and over a key list run from the first to the last entry, step one, bounded by that container's own length ($keys, $each, $sift, $spread, $merge visit every member once); (W) evalObject, groupItemsByKey and the object built-ins write only memory of the evaluation and keep no state. NOT decided: the partition law itself (which items belong to which key), the value evaluation over a group, $merge precedence, $lookup = field selection — value-level.",
+		Rule:        commonRule,
+		Fixtures:    []string{"w"},
+		Run: func(c *Ctx, r *Result) {
+			g := runGROUP(c, r, "GROUP")
+			r.RequireMin("GROUP stores into the key map", g, 3)
+			var cf []*ssa.Function
+			for _, f := range libFuncsIn(c, c.REval) {
+				if f.Pkg != nil && f.Pkg.Pkg.Name() == "jlib" && filepath.Base(c.W.Fset.Position(exceptionRoot(f).Pos()).Filename) == "object.go" {
+					cf = append(cf, f)
+				}
+			}
+			for _, n := range []string{"jsonata.groupItemsByKey", "jsonata.evalObject"} {
+				if f := c.mustFn(r, n); f != nil {
+					cf = append(cf, f)
+				}
+			}
+			cv := runCOVER(c, r, "COVER", cf, nil)
+			r.RequireMin("COVER traversal loops in the object machinery", cv, 8)
+			runPureNamed(c, r, []string{"jsonata.evalObject", "jsonata.groupItemsByKey", "jsonata.evalGroup", "jsonata.lookup"}, nil, 5)
+			runPureFamily(c, r, []string{"jlib.Keys", "jlib.Each", "jlib.Sift", "jlib.Spread", "jlib.Merge"}, map[string]bool{"jlib": true}, 15)
+		},
+	})
+	register(&propDef{
+		ID:          "C17",
+		Explanation: "Thin: decides structural necessary conditions of the regex functions. (KEYS) the match object built by (*matchCallable).Call and the members jlib.callMatchFunc reads back are the same set of names (writer/reader agreement: match, start, end, groups, next); findMatches asks the engine for all matches with group offsets (FindAllStringSubmatchIndex(s, -1)); a regex literal is regexp.Compile(token text) with the error tested, so an invalid pattern is a compile error; no jlib function applies a regexp method to anything but the package's own fixed patterns, so $match, $contains, $split and $replace all work from the one match list findMatches produces; (BND needs) $split and $replace slice the subject only after checkMatchRanges; (W) the regex callables and $match/$contains/$split/$replace write only memory of the evaluation (no cache of compiled patterns or matches). NOT decided: agreement of offsets, groups and $N expansion with RE2 as values; flags; the limit argument.",
+		Rule:        commonRule,
+		Fixtures:    []string{"w"},
+		Run: func(c *Ctx, r *Result) {
+			k := runKEYS(c, r, "KEYS")
+			r.RequireMin("KEYS obligations", k, 4)
+			for _, site := range []struct{ fn, needs string }{{"jlib.Split", "jlib.checkMatchRanges"}, {"jlib.replaceMatchFunc", "jlib.checkMatchRanges"}} {
+				f := c.mustFn(r, site.fn)
+				if f == nil {
+					continue
+				}
+				o := Obligation{Rule: "NEEDS", Key: site.fn + ":" + site.needs, Fn: site.fn, Pos: c.W.Pos(f.Pos()), Nontrivial: true}
+				ok := false
+				sliced := 0
+				for _, s := range bndSitesIn(c, f) {
+					if s.kind == "slice" && isStringType(s.x.Type()) {
+						sliced++
+						if dominatedByCallTo(s.ins, site.needs) {
+							ok = true
+						} else {
+							ok = false
+							break
+						}
+					}
+				}
+				if ok && sliced > 0 {
+					o.Verdict, o.Reason = Discharged, fmt.Sprintf("all %d string slices in %s are dominated by a call to %s", sliced, site.fn, site.needs)
+				} else {
+					o.Verdict, o.Reason = Finding, site.fn+" slices the subject string at match positions without a dominating call to "+site.needs
+				}
+				r.Add(o)
+			}
+			runPureNamed(c, r, []string{"jsonata.newMatchCallable", "jsonata.newRegexCallable", "jsonata.evalRegex"}, []string{"jsonata.regexCallable", "jsonata.matchCallable"}, 3)
+			runPureFamily(c, r, []string{"jlib.Match", "jlib.Contains", "jlib.Split", "jlib.Replace"}, map[string]bool{"jlib": true}, 10)
 		},
 	})
 	register(&propDef{
@@ -383,7 +448,7 @@ func runPanics(c *Ctx, r *Result, rule string, reach *Reach, tabProved map[strin
 func init() {
 	register(&propDef{
 		ID:          "C09",
-		Explanation: "Decides the crash/hang classes that are visible in the shape of the code, over everything reachable from Eval in the module call graph: (NF) every kind-specific reflect accessor gets a provably resolved receiver (138 sites, interprocedural); (TAB) eval's type switch covers every node type the parser can emit and every operator-enum switch is exhaustive, so the 'unexpected node'/'unrecognised operator' panics are unreachable; (PANIC) every explicit panic under Eval is one of those or a listed exception; (LOOP) every loop under Eval has a recognised variant (range, counted towards an invariant bound, shrinking-suffix consumer, positive multiplicative scaling, or a reviewed entry) and every recursive SCC a reviewed structural descent; (GUARD) integer / and % have a dominating non-zero test, strconv.FormatInt bases are confined to [2,36], strings.Repeat counts are non-negative; (HASH) no interface-keyed map is indexed with a dynamically typed value; (IDX) every reflect.Value.Index gets an index proved within 0..Len-1; (BND) every native index and slice expression under Eval is in range: either the Go compiler's own prove pass removes its bounds check (asked with -d=ssa/check_bce on the current tree), or a difference-constraint proof over dominating comparisons, definitions and library post-conditions gives 0 <= low <= high <= len, or the unproved part is covered by a reviewed one-site invariant. (TA) every single-result type assertion is dominated by a reflect type test of the same value against a type variable whose initialiser denotes the asserted type, or asserts the success result of a function that only returns that type, or is a reviewed exception; (RO) the value of a struct field (Value.Field/FieldByName/FieldByIndex — possibly unexported, hence read-only for reflect) is only inspected until a CanInterface test, or the PkgPath test of the same field, has shown it usable, so function values and Go structs used as data cannot make reflect panic; (NILTYPE) no method is called on reflect.TypeOf(x) unless x is shown non-nil; (ACYC) every store made through reflection into a data container (Value.Set/SetMapIndex) goes into a container allocated by the same activation or stores a scalar/zero Value, so Eval cannot make a value contain itself — the recursive walkers' descent arguments need finite depth. The transform's update store fails this and is a known finding. (KIND) every reflect.Value method with a kind or validity precondition (Len, Index, MapKeys, MapIndex, NumField, Field*, Float, Int, Bool, IsNil, Elem, Call, Type, Interface, CanInterface, Convert, Set, ...) gets a receiver whose possible kinds — computed interprocedurally over the module call graph in an own/resolved two-view lattice and refined by the dominating IsValid, == undefined, Kind() and jtypes-predicate tests — are all accepted by the method (interface/pointer kinds at the NF accessors being NF's obligation), or is a reviewed exception. NOT decided: nil interfaces used as values, reflect.Set on zero Values, stack depth, lt's own panic.",
+		Explanation: "Decides the crash/hang classes that are visible in the shape of the code, over everything reachable from Eval in the module call graph: (NF) every kind-specific reflect accessor gets a provably resolved receiver (138 sites, interprocedural); (TAB) eval's type switch covers every node type the parser can emit and every operator-enum switch is exhaustive, so the 'unexpected node'/'unrecognised operator' panics are unreachable; (PANIC) every explicit panic under Eval is one of those or a listed exception; (LOOP) every loop under Eval has a recognised variant (range, counted towards an invariant bound, shrinking-suffix consumer, positive multiplicative scaling, or a reviewed entry) and every recursive SCC a reviewed structural descent; (GUARD) integer / and % have a dominating non-zero test, strconv.FormatInt bases are confined to [2,36], strings.Repeat counts are non-negative; (HASH) no interface-keyed map is indexed with a dynamically typed value; (IDX) every reflect.Value.Index gets an index proved within 0..Len-1; (BND) every native index and slice expression under Eval is in range: either the Go compiler's own prove pass removes its bounds check (asked with -d=ssa/check_bce on the current tree), or a difference-constraint proof over dominating comparisons, definitions and library post-conditions gives 0 <= low <= high <= len, or the unproved part is covered by a reviewed one-site invariant. (TA) every single-result type assertion is dominated by a reflect type test of the same value against a type variable whose initialiser denotes the asserted type, or asserts the success result of a function that only returns that type, or is a reviewed exception; (RO) the value of a struct field (Value.Field/FieldByName/FieldByIndex — possibly unexported, hence read-only for reflect) is only inspected until a CanInterface test, or the PkgPath test of the same field, has shown it usable, so function values and Go structs used as data cannot make reflect panic; (NILTYPE) no method is called on reflect.TypeOf(x) unless x is shown non-nil; (ZERO) a zero value is synthesised for a missing argument (reflect.Zero) only for optional parameter types, interface{} and reflect.Value, never for a named interface such as jtypes.Callable, whose nil value the built-ins would call; (ACYC) every store made through reflection into a data container (Value.Set/SetMapIndex) goes into a container allocated by the same activation or stores a scalar/zero Value, so Eval cannot make a value contain itself — the recursive walkers' descent arguments need finite depth. The transform's update store fails this and is a known finding. (KIND) every reflect.Value method with a kind or validity precondition (Len, Index, MapKeys, MapIndex, NumField, Field*, Float, Int, Bool, IsNil, Elem, Call, Type, Interface, CanInterface, Convert, Set, ...) gets a receiver whose possible kinds — computed interprocedurally over the module call graph in an own/resolved two-view lattice and refined by the dominating IsValid, == undefined, Kind() and jtypes-predicate tests — are all accepted by the method (interface/pointer kinds at the NF accessors being NF's obligation), or is a reviewed exception. NOT decided: nil interfaces used as values, reflect.Set on zero Values, stack depth, lt's own panic.",
 		Rule:        commonRule,
 		Fixtures:    []string{"nf", "guard", "hash", "tab", "loop", "bnd", "ta", "ro", "kind"},
 		Run: func(c *Ctx, r *Result) {
@@ -419,6 +484,8 @@ func init() {
 			r.RequireMin("KIND reflect.Value method calls with a kind or validity precondition under Eval", kd, 250)
 			ac := runACYC(c, r, "ACYC", libFuncsIn(c, c.REval), c.REval)
 			r.RequireMin("ACYC reflective stores into data containers under Eval", ac, 7)
+			zr := runZERO(c, r, "ZERO", libFuncsIn(c, c.REval), c.REval)
+			r.RequireMin("ZERO synthesised zero values under Eval", zr, 1)
 			nt := runNILTYPE(c, r, "NILTYPE", libFuncsIn(c, c.REval), c.REval)
 			r.RequireMin("NILTYPE method calls on reflect.TypeOf results under Eval", nt, 2)
 			r.Assume("user-defined JSONata functions are not unboundedly recursive (excluded by the property)")
